@@ -2,6 +2,7 @@ package an
 
 import (
 	"go/token"
+	"go/types"
 	"strings"
 
 	"golang.org/x/tools/go/ssa"
@@ -83,6 +84,14 @@ func (d *Deps) root(name string, at ssa.Value) {
 			d.Sites[name] = in
 		}
 	}
+}
+
+func hasIdentity(v ssa.Value) bool {
+	switch v.Type().Underlying().(type) {
+	case *types.Pointer, *types.Slice, *types.Map:
+		return true
+	}
+	return false
 }
 
 func isFresh(v ssa.Value) bool {
@@ -347,6 +356,14 @@ func (d *Deps) mutators(v ssa.Value, fr *frame) {
 				for _, r2 := range refs(x) {
 					if st, ok := r2.(*ssa.Store); ok && st.Addr == x {
 						d.walk(st.Val, fr)
+					}
+					// a pointer/slice loaded back from the field aliases the stored object: its mutators are ours
+					if ld, ok := r2.(*ssa.UnOp); ok && ld.Op == token.MUL && ld.X == x && hasIdentity(ld) {
+						k := seenKey{ld, fr}
+						if !d.seen[k] {
+							d.seen[k] = true
+							d.mutators(ld, fr)
+						}
 					}
 				}
 			}
